@@ -547,3 +547,118 @@ def loops_reaching(f, emit_names):
 
 DROPPING_ITER = {"filter", "filter_map", "skip", "skip_while", "take", "take_while", "step_by", "map_while", "find", "find_map", "nth", "last",
                  "flat_map", "flatten", "position", "next_back", "rev", "dedup", "dedup_by", "dedup_by_key", "retain", "truncate", "drain", "pop"}
+
+
+RANGE_TR = TRANSPARENT | {"range", "deref", "map_or", "is_some_and", "is_none_or", "map_or_else", "map", "unwrap_or", "unwrap_or_default", "filter", "and_then"}
+
+
+def range_tags(prog, f, op, depth=0):
+    """{'start', 'end'} ⊇ which end(s) of a byte range a value can come from: a `.start` / `.end` field of a Range (also of the range
+    returned by `range()`), looked up through Option adaptors, closure parameters (to the receiver of the adaptor the closure was
+    handed to), closure captures and — for a variable captured by a closure — through the values stored into it inside that
+    closure (`prev_end = Some(range.end)`)."""
+    out = set()
+    if op[0] == "k" or depth > 6:
+        return out
+    for o in deep_roots(prog, f, op, RANGE_TR):
+        fp = field_path(o.proj)
+        if fp and fp[-1] in ("start", "end"):
+            out.add(fp[-1])
+            continue
+        if o.kind == "agg" and o.ref[2][1].get("variant") == "Some" and o.ref[2][2]:
+            out |= range_tags(prog, f, o.ref[2][2][0], depth + 1)
+        elif o.kind == "local":
+            for d in f.defs.get(o.ref, []):
+                if d[0] == "assign" and d[3][0] == "use":
+                    out |= range_tags(prog, f, d[3][1], depth + 2)
+        elif o.kind == "param" and f.is_closure and o.ref == 1:
+            slot = None
+            for p in o.proj:
+                if p.startswith(".") and p[1:].split("|")[0].isdigit():
+                    slot = p[1:].split("|")[0]
+                    break
+            if slot is not None:
+                # values stored into the captured variable inside this closure
+                def is_slot(pl):
+                    if "*" not in pl[1]:
+                        return False
+                    if pl[0] == 1:
+                        return any(p.startswith("." + slot + "|") or p == "." + slot for p in pl[1])
+                    # a store through a temporary that holds the captured reference: `_t = (*_1).k; (*_t) = …`
+                    return any(o2.kind == "param" and o2.ref == 1 and any(p.startswith("." + slot + "|") or p == "." + slot for p in o2.proj) for o2 in f.trace_local(pl[0]))
+                for bi in f.live_blocks:
+                    for st in f.blocks[bi]["s"]:
+                        if st[0] == "A" and is_slot(st[1]):
+                            rv = st[2]
+                            for x in (rv[2] if rv[0] == "agg" else [rv[1]] if rv[0] == "use" else []):
+                                out |= range_tags(prog, f, x, depth + 1)
+                cap = capture_origin(prog, f, o)
+                if cap:
+                    pf, op2, rest = cap
+                    rfp = field_path(rest)
+                    if rfp and rfp[-1] in ("start", "end"):
+                        out.add(rfp[-1])
+                    else:
+                        out |= range_tags(prog, pf, op2, depth + 1)
+        elif o.kind == "param" and f.is_closure and o.ref >= 2:
+            cons = closure_consumer(prog, f)
+            if cons and cons[2] != 0 and cons[1].args:
+                out |= range_tags(prog, cons[0], cons[1].args[0], depth + 1)
+    return out
+
+
+def overlap_tests(prog, crates):
+    """comparisons of a range start with an earlier range end (overlap filters over byte ranges).  Returns
+    [(fn, line, op, 'start OP end' normalised operator, strict_ok)] — with half-open ranges the boundary must separate
+    start < end (overlap) from start >= end (adjacent or later)."""
+    out = []
+    flip = {"Lt": "Gt", "Gt": "Lt", "Le": "Ge", "Ge": "Le"}
+    for f in sorted(prog.fns.values(), key=lambda f: f.id):
+        if f.crate not in crates:
+            continue
+        for bi in sorted(f.live_blocks):
+            for s in f.blocks[bi]["s"]:
+                if s[0] == "A" and s[2][0] == "bin" and s[2][1] in flip:
+                    a, b = range_tags(prog, f, s[2][2]), range_tags(prog, f, s[2][3])
+                    op = None
+                    if "start" in a and "end" in b and "end" not in a:
+                        op = s[2][1]
+                    elif "end" in a and "start" in b and "end" not in b:
+                        op = flip[s[2][1]]
+                    if op is None:
+                        continue
+                    out.append((f, s[3], s[2][1], op, op in ("Lt", "Ge")))
+    return out
+
+
+def value_sources(prog, f, op, transparent=None, depth=0, seen=None):
+    """Leaf producers of a value, followed interprocedurally through the return values of workspace callees: list of
+    (fn, Origin) where a `call` origin is a call that is not transparent and has no analysable workspace body."""
+    tr = transparent or (TRANSPARENT | {"to_string", "into_owned", "to_owned", "deref", "to_vec", "as_ref"})
+    if seen is None:
+        seen = set()
+    out = []
+    if op[0] == "k":
+        return out
+    for ff, o in ultimate_roots(prog, f, op, tr):
+        if o.kind == "call" and depth < 5:
+            tg = [t for t in prog.call_targets(o.ref) if t in prog.fns]
+            if len(tg) == 1 and (tg[0], "ret") not in seen and prog.fns[tg[0]].crate.startswith("ast_grep") and not o.proj:
+                g = prog.fns[tg[0]]
+                seen.add((tg[0], "ret"))
+                sub = []
+                for bi in sorted(g.live_blocks):
+                    for st in g.blocks[bi]["s"]:
+                        if st[0] == "A" and st[1][0] == 0 and not st[1][1] and st[2][0] == "use":
+                            sub += value_sources(prog, g, st[2][1], tr, depth + 1, seen)
+                    c = g.call_at(bi)
+                    if c is not None and c.dest and c.dest[0] == 0 and not c.dest[1]:
+                        if c.name in tr and c.args:
+                            sub += value_sources(prog, g, c.args[0], tr, depth + 1, seen)
+                        else:
+                            sub.append((g, Origin("call", c, ())))
+                if sub:
+                    out += sub
+                    continue
+        out.append((ff, o))
+    return out
